@@ -1,67 +1,9 @@
 #!/usr/bin/env python3
-"""Regenerates MANIFEST.json from the harness directories and the tables below.
-A property is claimed iff harness/<id>/harness.json exists and the id is listed
-in CLAIMED (only bounds that ran clean on the unchanged tree are registered)."""
+"""Regenerates MANIFEST.json. A property is claimed iff harness/<id>/harness.json exists and
+harness/<id>/claim.json says "registered": true (set only after the bound ran clean, exit 0, on the
+unchanged tree). claim.json: {"registered": bool, "text": level text, "note": trusted base / outside}."""
 import json, os, sys
 here = os.path.dirname(os.path.abspath(__file__))
-
-# id -> (level text, level note)
-CLAIMED = {
- "C41": ("Bounded solver verdict: for every repository path (<= N bytes, all byte values except NUL) and argument list within the bounds, "
-         "the real ssh.buildCommand/writeShellQuote output, split by a reference POSIX sh word splitter, yields exactly [service, path, args...] with no unquoted metacharacter, "
-         "and git's sq_dequote returns the original. Decided by SMT over all symbolic bytes on every feasible path; not a proof (lengths are bounded).",
-         "Trusted: go/ssa, symgo semantics, the sh word-splitting model and sq_dequote transcription in harness/C41, z3. Outside: longer inputs, non-POSIX shells."),
-}
-
-CLAIMED.update({
- "C13": ("Bounded solver verdict: for every name of <= N bytes (all byte values except NUL; also after the fixed prefixes refs/heads/, refs/tags/, refs/) "
-         "ReferenceName.Validate()==nil iff a transcription of git's check_refname_format(name,0) accepts and go-git's documented leading-dash rule does not apply. "
-         "One genuine disagreement class (a component equal to '@') is a recorded known finding; every other disagreement raises VIOLATION.",
-         "Trusted: go/ssa, symgo, the refs.c transcription in harness/C13 (cross-validated against git check-ref-format on 6000 random names while building), the character-class model of the ctrlSeqs regexp, z3. Outside: longer names; HEAD is excluded as go-git's documented special case."),
- "C32": ("Bounded solver verdict on the sparse-selection kernel: for every pair of entry names (<= NAMELEN bytes over {a,b,/}) and every <= PATTERNS directories, after Index.SkipUnless(D) an entry is skip-worktree iff it lies outside every directory by whole path components.",
-         "Trusted: go/ssa, symgo, z3. Only the index-marking kernel is encoded; the worktree materialisation is whole-porcelain (see C25) and is outside the claim."),
- "C34": ("Bounded solver verdict: hex length codec over the full 16-bit range; ParseLength accept set over all 2^32 headers; Write size limit at the boundary; "
-         "round trip of <= PKTS packets with symbolic payloads through Read, Scanner and PeekLine/ReadLine under solver-chosen stream split points; resynchronisation after an oversized packet.",
-         "Trusted: go/ssa, symgo (bufio, bytes, io interpreted from their SSA), sync.Pool model, z3. Outside: payloads longer than the bound, more split points than CUTS, sideband mux/demux (not yet built)."),
-})
-
-CLAIMED.update({
- "C06": ("Bounded solver verdict: the three delta appliers (patchDelta/PatchDelta, ReaderFromDelta, patchDeltaWriter) accept a (source, delta) pair iff a line-by-line transcription of git's patch_delta accepts and then produce the same bytes, for every source of <= SRC bytes and every delta stream of <= DELTA bytes (all byte values; malformed streams included); "
-         "copy-command and LEB128 codecs round-trip over their full integer ranges; the offset+size bound check does not wrap; patchDelta(src, DiffDelta(src,tgt)) == tgt with the block hash replaced by an arbitrary function. "
-         "Three genuine defects found this way were repaired (fix: commits); two harmless disagreement classes on malformed input are recorded known findings.",
-         "Trusted: go/ssa, symgo (bufio/bytes/io interpreted), the patch-delta.c transcription in harness/C06, stubs: sync.Pool, SHA-1 as recording hash, io.Pipe as FIFO with eager producer, z3. Outside: inputs beyond the bounds; for the reader-based appliers insert commands larger than INSMAX."),
-})
-
-CLAIMED.update({
- "C31": ("Bounded solver verdict: for every content of <= N bytes (FREE fully symbolic bytes, the rest over {CR,LF,NUL,0x1A,'a',0x7F,0x80}), every core.autocrlf value and every split of the stream into two chunks: "
-         "GetStat/IsBinary equal git's gather_stats/convert_is_binary; the bytes copyObjectToWorktree writes equal crlf_to_worktree; the blob bytes fillEncodedObjectFromFile produces equal crlf_to_git; "
-         "the status hasher announces exactly the bytes it hashes and they are git's blob; checkout-then-add of CR-free content is the identity. One genuine defect (mixed line endings converted on checkout) was found and repaired.",
-         "Trusted: go/ssa, symgo (region merging), the convert.c transcriptions in harness/C31, in-memory filesystem model, recording hash, z3. Outside: longer contents, .gitattributes, core.safecrlf, git's CR-in-index rule."),
-})
-
-CLAIMED.update({
- "C19": ("Inductive-step solver verdict (no bound on history length): from an arbitrary reachable state of a transactional reference store over two names with symbolic hashes, one operation with symbolic arguments leaves every read and the listing equal to base+pending and the base unchanged; Commit from an arbitrary state makes the base equal to the view; same for two objects. Three genuine defects were found this way and repaired.",
-         "Trusted: go/ssa, symgo, the reachable-state invariant stated in harness/C19 (a removed name is absent from the pending set), memory base storages, recording hash, z3. Outside: filesystem bases, more than two names/objects, index/shallow/config/reflog overlays."),
-})
-
-CLAIMED.update({
- "C24": ("Inductive-step solver verdict (no bound on history length): from an arbitrary SharedFile state satisfying the representation invariant (symbolic refs/flags/64-bit generation, armed or stale grace timer), any one of Acquire/Release/ReleaseNow/Close/Pinned/timer-firing preserves the invariant and never closes a descriptor a reader still holds (except explicit Close); the last Release arms a timer whose firing closes the idle descriptor; for fdpool.Pool, bounded Touch sequences keep the LRU within capacity, never evict the toucher, prefer unpinned victims and keep open handles <= capacity + pinned.",
-         "Trusted: go/ssa, symgo, the representation invariant in harness/C24, the timer model (callback may run once after Stop), mutex critical sections taken as atomic, z3. Outside: the Go scheduler/data races, packhandle wiring, pool sequences beyond the bounds."),
-})
-
-CLAIMED.update({
- "C39": ("Solver verdict from an arbitrary pre-state: two reference names each absent or at one of three ids, a symbolic subset of the three objects present, one request of <= CMDS commands (duplicate names allowed) with old/new drawn from {zero,id1..3}: "
-         "after transport.updateReferences every stored value is what git's receive-pack rules give (a value changes only when the command's old value matches the current one, never to an id whose object is missing); "
-         "end to end through ReceivePack for delete requests the report-status says 'unpack ok' and ok/ng per command exactly as applied. Three genuine defects were found this way and repaired.",
-         "Trusted: go/ssa, symgo, memory.Storage executed as SSA, fmt.Sscanf run natively on concrete command lines, z3. Outside: concurrent pushes, hooks, pack reception, more than CMDS commands."),
-})
-
-CLAIMED.update({
- "C09": ("Bounded solver verdict with the inflater replaced by a nondeterministic transducer (consumes any <= ZIN bytes, yields any <= ZOUT bytes, may report corruption) and SHA-1 by an uninterpreted function: for every one-entry pack whose bytes after the pack header are symbolic, whatever packfile.Scanner delivers is consistent — declared size == inflated size, no object from a truncated or corrupt stream, object id = H(\"<type> <size>\\0\" + content), OFS base strictly inside (0, offset), and a trailer is accepted only if it is the hash of every preceding byte; "
-         "BoundedReadCloser/boundedWriter never pass more than the limit under any chunking and report overrun; checkDeltaChainDepth accepts iff the true depth (uncached links + an arbitrary cached depth) is <= 4095 (inductive); "
-         "Parser.Parse over a two-entry pack (base + arbitrary second entry, typically an OFS/REF delta on it) reports only objects named by the hash of their content, a delta's content being git's patch_delta of the base it names. One genuine defect (short inflate accepted) was found this way and repaired.",
-         "Trusted: go/ssa, symgo, the transducer contract (over-approximates zlib; with the RFC 1950 header check in the parser harness), recording hashes, CRC-32 as an uninterpreted function, the patch-delta transcription shared with C06, z3. Outside: entry headers with more than HC continuation bytes, packs with more than two entries, seekable (re-inflating) sources in the parser harness, thin packs resolved against a storage, bit-level zlib/SHA-1, comparison with the git binary."),
-})
 
 NA_REASON = {
  "C05": "needs the real SHA-1 compression function on published collision blocks and Go's cross-package init order; the hash is necessarily an uninterpreted stub under symbolic execution",
@@ -87,8 +29,10 @@ checks, na = [], []
 for p in props:
     pid = p["id"]
     hj = os.path.join(here, "harness", pid, "harness.json")
-    if pid in CLAIMED and os.path.exists(hj):
-        text, note = CLAIMED[pid]
+    cj = os.path.join(here, "harness", pid, "claim.json")
+    claim = json.load(open(cj)) if os.path.exists(cj) else None
+    if claim and claim.get("registered") and os.path.exists(hj):
+        text, note = claim["text"], claim["note"]
         checks.append({
             "property_id": pid,
             "quick_cmd": f"./check {pid} quick",
